@@ -35,6 +35,7 @@ MAP = {
     "Glue.v": ["C19"],
     "Tracing.v": ["C20"],
     "TracingStart.v": ["C20"],
+    "TracingAttr.v": ["C20"],
     "Exit.v": ["C01"],
 }
 # the monitors (executable specifications): a mutant is killed when the monitor REJECTS the unchanged code
@@ -45,6 +46,10 @@ SPEC_MAP = {
     "StatsSpec.v": ["C12", "C01"],
     "ReportersSpec.v": ["C14"],
     "RetryOptsSpec.v": ["C18"],
+    "ReportersSpec2.v": ["C14"],
+    "ReportersSpec3.v": ["C14"],
+    "ReportersSpec4.v": ["C14"],
+    "RetryOptsSpec2.v": ["C18"],
 }
 
 TOKEN = re.compile(r"<=\?|<\?|=\?|&&|\|\||\btrue\b|\bfalse\b|\bnegb |\bexistsb\b|\bforallb\b|\bN\.max\b|\bN\.min\b"
